@@ -8,8 +8,15 @@ from contracts.common import add_common, WF, wf_theory, C_idx, desc
 
 VERIFY = ["trees.trees.right_sibling", "trees.trees.left_sibling", "trees.trees.dominance", "trees.trees.lca"]
 
-TRUSTED = ["wf_theory: a well-formed tree admits ghost functions depth/anc/pos/C_idx with the axioms of "
-           "contracts/common.py:wf_theory (validated on enumerated trees by bounded/c19.py clause ghost_axioms)"]
+TRUSTED = ["wf_theory / wf_theory_tokens: a well-formed tree admits ghost functions depth/anc/pos/C_idx/rank/NL/SNL with "
+           "the axioms of contracts/common.py (validated on enumerated trees by bounded/c19.py clause ghost_axioms)",
+           "pre_def: the spec lists P / Q (preorder / postorder) are *defined* by recursion over the ordered child "
+           "lists through the node counts NN / SNNC (conservative definition; its clauses, incl. monotone prefix sums, "
+           "are validated by ghost_axioms)",
+           "terminals / children are verified against characterisations (only tokens below, strictly increasing, "
+           "as many as NL / a permutation of the stored list in strict order of least token); that these determine "
+           "the lists T / C used by callers is the sorted-list uniqueness argument of DESIGN 3.9 (not machine-checked)",
+           "sorted(list, key=f) is modelled as: a permutation of its argument whose keys are non-decreasing"]
 ASSUMPTIONS = ["Tree.__eq__/__ne__ is identity on references (from Tree.id, unique per instance)",
                "int = mathematical integer; list value semantics; Tree heap model of DESIGN 3.3"]
 
@@ -345,3 +352,112 @@ def children_verified_contract(reg):
 
 VERIFY_AS["trees.trees.children"] = children_verified_contract
 VERIFY.append("trees.trees.children")
+
+
+# ------------------------------------------------------------------------------------------------------------------
+# trees.preorder verified against the recursive definition of the spec list P (contracts.common.pre_def) together
+# with the facts callers use (preorder_facts): every node below the argument exactly once, the argument first
+# ------------------------------------------------------------------------------------------------------------------
+from contracts.common import pre_def, preorder_facts
+
+
+def traversal_verified_contract(reg, post=False):
+    off = 0 if post else 1
+    L = (lambda H, t: H.post(t)) if post else (lambda H, t: H.pre(t))
+    IDX = (lambda H, t, y: H.post_idx(t, y)) if post else (lambda H, t, y: H.pre_idx(t, y))
+
+    def requires(S, tree):
+        return conj(WF(S.H, tree), tree != None, wf_theory(S.H), wf_theory_tokens(S.H), pre_def(S.H, post))
+
+    def elem_facts(H, tree, Y, lo, hi, shift=0):
+        """the yielded nodes lo..hi-1 are P(tree)[lo+shift:hi+shift], well-formed nodes below tree, at their index"""
+        from pyvc import sym as _sym
+        a = z3.Int(fresh_name("ea"))
+        P = L(H, tree)
+        Y = _sym.coerce(Y, TList(REF))            # (the empty list of a generator that has not yielded yet)
+        e = lambda q: P.get(q + shift)
+        return qforall([a], z3.Implies(z3.And(lo <= a, a < hi), z3.And(
+            Y.get(a).t == e(a).t, e(a).t != 0, tobool(WF(H, e(a))), tobool(desc(H, tree, e(a))),
+            IDX(H, tree, e(a)).t == a + shift)), [Y.get(a).t])
+
+    def order_facts(H, x):
+        """ancestors before (postorder: after) their descendants"""
+        y, z = z3.Int(fresh_name("oy")), z3.Int(fresh_name("oz"))
+        iy, iz = IDX(H, x, VRef(y)).t, IDX(H, x, VRef(z)).t
+        return qforall([y, z], z3.Implies(
+            z3.And(tobool(WF(H, VRef(y))), tobool(WF(H, VRef(z))), tobool(desc(H, x, VRef(y))),
+                   tobool(desc(H, VRef(y), VRef(z))), y != z),
+            (iy > iz) if post else (iy < iz)), [[iy, iz]])
+
+    def all_anc_anc(H):
+        """lemma anc_anc (LEMMAS, proved by explicit induction) for every well-formed node"""
+        x, d, k = z3.Int(fresh_name("ax")), z3.Int(fresh_name("ad")), z3.Int(fresh_name("ak"))
+        an = lambda r, q: H.anc(VRef(r), VInt(q)).t
+        return VBool(qforall([x, d, k], z3.Implies(
+            z3.And(tobool(WF(H, VRef(x))), 0 <= k, k <= d, d <= H.depth(VRef(x)).t),
+            an(an(x, d), k) == an(x, k)), [[an(x, d), an(x, k)]]))
+
+    def outer_inv(S):
+        H, tree, Y, it = S.H, S.tree, S.yielded, toint(S.it)
+        k = z3.Int(fresh_name("ok"))
+        C = H.ochildren(tree)
+        return conj(
+            VBool(Y.n == off + H.snnc(tree, it).t),
+            VBool(elem_facts(H, tree, Y, 0, Y.n)),
+            # what the recursive calls established for the children visited so far
+            VBool(qforall([k], z3.Implies(z3.And(0 <= k, k < it),
+                                          z3.And(tobool(preorder_facts(H, C.get(k), post)), order_facts(H, C.get(k)))),
+                          [C.get(k).t])),
+        )
+
+    def inner_inv(S):
+        H, tree, Y, it, child = S.H, S.tree, S.yielded, toint(S.it), S.child
+        k = C_idx(H, child).t
+        return conj(
+            VBool(Y.n == off + H.snnc(tree, k).t + it),
+            VBool(elem_facts(H, tree, Y, 0, Y.n)),
+        )
+
+    def below(S):
+        """ghost assertion after the loops: a node strictly below `tree` hangs below exactly one ordered child"""
+        H, tree = S.H, S.tree
+        y = z3.Int(fresh_name("by"))
+        d1 = H.depth(tree).t + 1
+        cy = H.anc(VRef(y), VInt(d1))
+        return VBool(qforall([y], z3.Implies(
+            z3.And(tobool(WF(H, VRef(y))), tobool(desc(H, tree, VRef(y))), y != tree.t),
+            z3.And(tobool(WF(H, cy)), H.parent_t(cy.t) == tree.t, tobool(desc(H, cy, VRef(y))),
+                   0 <= C_idx(H, cy).t, C_idx(H, cy).t < H.nchild_t(tree.t),
+                   H.ochildren(tree).get(C_idx(H, cy).t).t == cy.t,
+                   IDX(H, tree, VRef(y)).t == off + H.snnc(tree, C_idx(H, cy).t).t + IDX(H, cy, VRef(y)).t)),
+            [IDX(H, tree, VRef(y)).t]))
+
+    name = "postorder" if post else "preorder"
+    return Contract(
+        target="trees.trees." + name, prop="C19", args=dict(tree=REF),
+        requires=requires, returns=lambda S, tree: L(S.H, tree),
+        ensures={"every_node_below_once_argument_%s" % ("last" if post else "first"):
+                 lambda S, tree, result: preorder_facts(S.H, tree, post),
+                 "ancestors_%s_descendants" % ("after" if post else "before"):
+                 lambda S, tree, result: VBool(order_facts(S.H, tree))},
+        uses=[lambda S, tree: all_anc_anc(S.H)],
+        result_type=TList(REF),
+        decreases=lambda S, tree: S.H.hgt(tree),
+        loops={0: dict(inv=outer_inv, yield_type=REF, after=below), 1: dict(inv=inner_inv, yield_type=REF)},
+        solver_hints={"inv0.keep": {"cli_s": 30}, "post.": {"cli_s": 30}, "inv0.after": {"cli_s": 30},
+                      "inv1.keep": {"cli_s": 30}},
+    )
+
+
+def preorder_verified_contract(reg):
+    return traversal_verified_contract(reg, post=False)
+
+
+def postorder_verified_contract(reg):
+    return traversal_verified_contract(reg, post=True)
+
+
+VERIFY_AS["trees.trees.preorder"] = preorder_verified_contract
+VERIFY.append("trees.trees.preorder")
+VERIFY_AS["trees.trees.postorder"] = postorder_verified_contract
+VERIFY.append("trees.trees.postorder")
